@@ -82,15 +82,33 @@ def sim_step(ctx, cls_name, it=None, args=None):
     paths = returns(it.run_function(q, args=args))
     out = []
     for p in paths:
-        sol = [e for e in p.events if e.kind == "ext_call" and (e.data["callee"] in DIRECT_SOLVERS or e.data["callee"] in ITERATIVE_SOLVERS)]
+        sol = []
+        for e in p.events:
+            if e.kind == "ext_call" and (e.data["callee"] in DIRECT_SOLVERS or e.data["callee"] in ITERATIVE_SOLVERS):
+                if e.data["callee"] in FACTORIES:
+                    continue  # the factory call itself solves nothing: the calls of its result do
+                sol.append(e)
+            elif e.kind == "extobj_call" and isinstance(e.data["obj"], ExtObj) and e.data["obj"].qual in FACTORIES and len(e.data["args"]) == 1:
+                # solve = factorized(A); x = solve(b): one direct solve with matrix A and right-hand side b
+                fac = e.data["obj"]
+                e.data.setdefault("callee", fac.qual)
+                e.data["args_solve"] = {"A": fac.args.get("A", fac.args.get("0")), "b": e.data["args"][0]}
+                sol.append(e)
         out.append((p, sol))
     return it, f, out
 
 
+FACTORIES = {"scipy.sparse.linalg.factorized"}
+CONVERSIONS = ("tocsc", "tocsr", "tocoo", "tolil", "todia", "asformat", "copy")
+
+
 def solver_inputs(ev):
-    a = ev.data["args"]
+    a = ev.data.get("args_solve") or ev.data["args"]
     A = a.get("A") or a.get("0")
     b = a.get("b") or a.get("1")
+    # a format conversion of the assembled matrix is still that matrix
+    while isinstance(A, ExtObj) and "recv" in A.args and A.qual.rsplit(".", 1)[-1] in CONVERSIONS:
+        A = A.args["recv"]
     return A, b
 
 
